@@ -770,7 +770,34 @@ func extractDefaults() {
 
 // ---------------------------------------------------------------- misc: id masks, short-body guards
 
+func bytesCalls(pkRel, recv, fn string) []string {
+	out := []string{}
+	p := loadPkg(pkRel)
+	fd := p.fn(recv, fn)
+	if fd == nil {
+		unrec(pkRel+":"+recv+"."+fn, "function not found")
+		return out
+	}
+	ast.Inspect(fd, func(x ast.Node) bool {
+		if c, ok := x.(*ast.CallExpr); ok && strings.HasPrefix(exprString(c.Fun), "bytes.") {
+			neg := ""
+			out = append(out, neg+exprString(c))
+		}
+		if u, ok := x.(*ast.UnaryExpr); ok && u.Op == token.NOT {
+			if c, ok := u.X.(*ast.CallExpr); ok && strings.HasPrefix(exprString(c.Fun), "bytes.") {
+				out = append(out, "!")
+			}
+		}
+		return true
+	})
+	return out
+}
+
 func extractMisc() {
+	emit("/-- byte comparisons in protocol/sub: matching is HasPrefix(body, subscription); (un)subscribe compare with Equal -/\n")
+	emit("def subMatches : List String := %s\n", leanStrList(bytesCalls("protocol/sub", "context", "matches")))
+	emit("def subSubscribe : List String := %s\n", leanStrList(bytesCalls("protocol/sub", "context", "subscribe")))
+	emit("def subUnsubscribe : List String := %s\n", leanStrList(bytesCalls("protocol/sub", "context", "unsubscribe")))
 	// request / survey id: `atomic.AddUint32(&s.nextID, 1) | 0x80000000`
 	for _, pk := range []string{"req", "surveyor"} {
 		p := loadPkg("protocol/" + pk)
